@@ -169,8 +169,10 @@ TCrashWrite ==
   /\ Ev.act = "CrashWrite"
   /\ IF gp.pc # "run" \/ gp.todo # {} THEN Stuck("C02_set")
      ELSE /\ gp' = IdleGp /\ dr' = FALSE
-          /\ trk' = [t \in T |-> Ev.after.trk[t]]
-          /\ hsh' = [t \in T |-> Ev.after.hsh[t]]
+          (* the state goes on from what is on disk (either content is legal); a value that is neither - an id the *)
+          (* scheduler never issued, an unknown hash - fails C09_write_atomic and is replaced by the new content   *)
+          /\ trk' = [t \in T |-> IF Ev.after.trk[t] \in JobIds \cup {NoJob} THEN Ev.after.trk[t] ELSE gp.mtrk[t]]
+          /\ hsh' = [t \in T |-> IF Ev.after.hsh[t] \in NoRec..specv[t] THEN Ev.after.hsh[t] ELSE gp.mhsh[t]]
           /\ Disturb /\ Bump("faults")
           /\ UNCHANGED <<w, specv, fs, clock, jobs, useHash>>
           /\ Log("CrashWrite", [file |-> Ev.file])
